@@ -60,7 +60,8 @@ def _ref_class_attrs():
     if _REF_ATTRS is None:
         from .. import canon
         out = {}
-        for key, (h, src) in canon.load_fn_table().items():
+        for key, ent in canon.load_fn_table().items():
+            src = ent[1]
             rel, cls, fn, k = key.split('::')
             if not cls:
                 continue
